@@ -50,6 +50,9 @@ class P(vlib.Prop):
                   "Callers: fetchRepositoryIndex is modelled as RoundTrip + status test + io.ReadAll (buffer sizes 512 - bytes read, bodies below 512 bytes) + the condition under which the read error is returned, "
                   "which goextract reads (c20_callers_as_modelled); c20_index_fetch_complete_or_error: for every script, exhausted retries included, it terminates with an error or a prefix of the server's bytes, all of them "
                   "when every response is framed; c20_index_read_error_dropped_refuted is the variant of seeded change C20-9. "
+                  "While the cached download runs: retrieve_trace gives the cache directory after the temporary file was created, after every body read of the copy and at the end; goextract reads where the copy goes "
+                  "(c20_cache_text_as_modelled); c20_cached_never_partially_advertised: in every such state the final name holds nothing or exactly the server's bytes (c20_cached_direct_write_refuted for a copy "
+                  "straight into the final name); the index stage looks into the real directory at the moment of the cut. "
                   "Cached index download: c20_cached_download_complete_or_error / _twice (for every cut of a framed response: an error, nothing advertised, no temporary file left - or exactly the "
                   "server's bytes advertised and returned), c20_readall_complete_or_error. Refuted: a short body is never EOF without framing (c20_short_body_unframed_refuted = finding C20-F1; "
                   "c20_cached_short_body_unframed_refuted = finding C20-F2, where the short body stays in the cache). All about executable models tied to the code by per-Read differential "
